@@ -150,7 +150,7 @@ func ExtractCMS(typ, path string) [][]byte {
 			}
 		}
 	case "ps1", "ps1xml", "mof":
-		if blob, err := psSignature(string(data)); err == nil {
+		if blob, err := psSignature(decodeText(data)); err == nil {
 			return [][]byte{blob}
 		}
 	case "cat":
